@@ -60,7 +60,8 @@ let int_of_n x = Z.to_int (zn x)
 
 let sx_n s = n_of_z (Z.of_string (atom s))
 let sx_z s = z_of_z (Z.of_string (atom s))
-let sx_nat s = nat_of_int (int_of_string (atom s))
+(* node keys and indexes: anything beyond 100000 behaves like 100000 (out of every range used) *)
+let sx_nat s = nat_of_int (Z.to_int (Z.min (Z.of_string (atom s)) (Z.of_int 100000)))
 
 (* ---------- bytes ---------- *)
 let sx_bytes s : coq_N list =
